@@ -10,6 +10,6 @@ import vcheck as V
 V.prepare({})
 PY
 cd lean
-MODS=$(ls Rosmar/Properties/*.lean | sed 's/\.lean$//; s#/#.#g')
+MODS=$(ls Rosmar/Properties/*.lean Rosmar/Gen/Tie*.lean | sed 's/\.lean$//; s#/#.#g')
 lake build drv $MODS
 echo "setup ok"
